@@ -22,6 +22,11 @@ impl SliceConstructor {
         }
     }
 
+    /// Whether the slice with this index was already received (false for an invalid index).
+    pub fn has_slice(&self, slice_index: usize) -> bool {
+        self.received.get(slice_index).copied().unwrap_or(false)
+    }
+
     pub fn process_slice(&mut self, slice_index: usize, bytes: &[u8]) -> Result<Option<Bytes>, ChannelError> {
         if slice_index >= self.num_slices {
             log::error!(
